@@ -266,6 +266,10 @@ func runStoreProp(prop, tier string, r *rng) {
 		for _, k := range []int{1, 2, 3, 4, 7, 8, 12} {
 			delFaultCase(prop, 16, 11, k)
 		}
+		// the caller's deadline is a parameter too: from seconds to "effectively none" (the budget arithmetic is 64-bit nanoseconds)
+		for _, d := range []time.Duration{10 * time.Second, 365 * 24 * time.Hour, 5 * 365 * 24 * time.Hour, 10 * 365 * 24 * time.Hour, 100 * 365 * 24 * time.Hour, 1<<63 - 1} {
+			deadlineCase(prop, d)
+		}
 		queuedDeleteCase(prop, 21, 31, 41, 25, 32)
 		queuedDeleteCase(prop, 10, 14, 20, 12, 15)
 		queuedDeleteCase(prop, 10, 14, 20, 5, 15)
@@ -945,4 +949,40 @@ func flushSnapshotRaceCase(prop string, n, to, more, batch int) {
 	}
 	emit("%s kind=flushinhandler flavour=plain-snapshotrace failcommits=0 n=%d to=%d more=%d batch=%d => parked=%s delete=%s head=%d tail=%d stored=%s keys=%s second=ok handledTwice=0", prop, n, to, more, batch,
 		was, errs(e1), hd, tl, js(stored), js(keys))
+}
+
+// deadlineCase: tail-side and head-side DeleteRange under a context whose deadline is `d` away.
+func deadlineCase(prop string, d time.Duration) {
+	ctx := context.Background()
+	chain := vhdr.Chain("A", 25, storeT0, int64(time.Second), 0)
+	core := memds.NewCore()
+	st, err := store.NewStore[*vhdr.Header](&memds.Plain{C: core}, store.WithWriteBatchSize(64))
+	if err != nil {
+		panic(err)
+	}
+	if err := func() error { sc, end := startCtx(); defer end(); return st.Start(sc) }(); err != nil {
+		panic(err)
+	}
+	defer st.Stop(ctx) //nolint:errcheck
+	_ = st.Append(ctx, chain[:20]...)
+	_ = st.Sync(ctx)
+	_ = st.Append(ctx, chain[20:]...)
+	c, cancel := context.WithTimeout(ctx, d)
+	e1 := st.DeleteRange(c, 1, 8)
+	e2 := st.DeleteRange(c, 23, 26)
+	cancel()
+	var byh []string
+	for h := 1; h <= 25; h++ {
+		if x, err := st.GetByHeight(cancelled, uint64(h)); err == nil && x.H == uint64(h) {
+			byh = append(byh, itoa(h))
+		}
+	}
+	hd, tl := uint64(0), uint64(0)
+	if h, err := st.Head(ctx); err == nil {
+		hd = h.H
+	}
+	if h, err := st.Tail(ctx); err == nil {
+		tl = h.H
+	}
+	emit("%s kind=deadline hours=%d => tailside=%s headside=%s head=%d tail=%d byheight=%s", prop, int64(d/time.Hour), errs(e1), errs(e2), hd, tl, strings.Join(byh, ","))
 }
